@@ -124,7 +124,30 @@ impl<K: KeyT, V: ValT> MapWorld<K, V> {
         if let Some(e) = judge(&log, &model, &plan) {
             vio!(self, "iter/Iter", "iterator kind {which}, plan {:?}: {e}", plan);
         }
-        if mutating {
+        if mutating && which == 4 && !V::HAS_SERIAL {
+            // values_mut over values without identity: which entries a partial traversal touched cannot be told
+            // from the items, only how many of which value. Check the multiset, then adopt the actual values.
+            let mut want: Vec<u32> = self.slots[si].model.e.iter().map(|e| e.v).collect();
+            for it in &touched {
+                if let Some(p) = want.iter().position(|&x| x == it.2) {
+                    want[p] ^= Self::TG;
+                } else {
+                    vio!(self, "iter/Iter", "values_mut handed out value {} which the model does not hold", it.2);
+                }
+            }
+            let act = self.actual(si);
+            let mut have: Vec<u32> = act.iter().map(|x| x.0.v).collect();
+            want.sort();
+            have.sort();
+            if want != have {
+                vio!(self, "iter/Iter", "after values_mut toggled {} values the stored values are {:?}, expected the multiset {:?}", touched.len(), have, want);
+            }
+            for e in self.slots[si].model.e.iter_mut() {
+                if let Some((a, _)) = act.iter().find(|(a, _)| a.kid == e.kid) {
+                    e.v = a.v;
+                }
+            }
+        } else if mutating {
             // every visited entry was toggled once
             let visited: Vec<Item> = touched.clone();
             let model = &mut self.slots[si].model;
